@@ -119,6 +119,34 @@ type childResult struct {
 	exitCode int
 	stderr   string
 	timedOut bool
+	stalled  bool // no new run started for Batch.StallAfter
+}
+
+// progressBuf collects a child's stdout and remembers when the last protocol
+// line arrived.
+type progressBuf struct {
+	mu   sync.Mutex
+	buf  bytes.Buffer
+	last time.Time
+}
+
+func (p *progressBuf) Write(b []byte) (int, error) {
+	p.mu.Lock()
+	defer p.mu.Unlock()
+	p.last = time.Now()
+	return p.buf.Write(b)
+}
+
+func (p *progressBuf) sinceProgress() time.Duration {
+	p.mu.Lock()
+	defer p.mu.Unlock()
+	return time.Since(p.last)
+}
+
+func (p *progressBuf) bytes() []byte {
+	p.mu.Lock()
+	defer p.mu.Unlock()
+	return append([]byte(nil), p.buf.Bytes()...)
 }
 
 func (ck *Check) spawn(b *Batch, seed uint64, args []string, stdin []byte, explain bool) childResult {
@@ -135,8 +163,9 @@ func (ck *Check) spawn(b *Batch, seed uint64, args []string, stdin []byte, expla
 	if stdin != nil {
 		cmd.Stdin = bytes.NewReader(stdin)
 	}
-	var stdout, stderr bytes.Buffer
-	cmd.Stdout = &stdout
+	var stderr bytes.Buffer
+	stdout := &progressBuf{last: time.Now()}
+	cmd.Stdout = stdout
 	cmd.Stderr = &stderr
 	res := childResult{lastRun: -1}
 	if err := cmd.Start(); err != nil {
@@ -150,23 +179,41 @@ func (ck *Check) spawn(b *Batch, seed uint64, args []string, stdin []byte, expla
 	if timeout == 0 {
 		timeout = 120 * time.Second
 	}
-	select {
-	case err := <-done:
-		if err != nil {
-			if ee, ok := err.(*exec.ExitError); ok {
-				res.exitCode = ee.ExitCode()
-			} else {
-				res.exitCode = -1
+	deadline := time.After(timeout)
+	tick := time.NewTicker(2 * time.Second)
+	defer tick.Stop()
+wait:
+	for {
+		select {
+		case err := <-done:
+			if err != nil {
+				if ee, ok := err.(*exec.ExitError); ok {
+					res.exitCode = ee.ExitCode()
+				} else {
+					res.exitCode = -1
+				}
+			}
+			break wait
+		case <-deadline:
+			cmd.Process.Kill()
+			<-done
+			res.timedOut = true
+			res.exitCode = -2
+			break wait
+		case <-tick.C:
+			// a child that has not started a new run for StallAfter is stuck
+			// inside one run
+			if b.StallAfter > 0 && stdout.sinceProgress() > b.StallAfter {
+				cmd.Process.Kill()
+				<-done
+				res.stalled = true
+				res.exitCode = -3
+				break wait
 			}
 		}
-	case <-time.After(timeout):
-		cmd.Process.Kill()
-		<-done
-		res.timedOut = true
-		res.exitCode = -2
 	}
 	res.stderr = stderr.String()
-	sc := bufio.NewScanner(&stdout)
+	sc := bufio.NewScanner(bytes.NewReader(stdout.bytes()))
 	sc.Buffer(make([]byte, 1<<20), 1<<28)
 	for sc.Scan() {
 		line := sc.Text()
@@ -197,6 +244,9 @@ func tailText(s string, n int) string {
 
 // abortOutcome turns a child that died into an outcome.
 func abortOutcome(b *Batch, r childResult) *Outcome {
+	if r.stalled {
+		return &Outcome{Class: "hang", Key: "hang:" + b.Name, Detail: fmt.Sprintf("run %d did not finish: the child process started no new run for %v (twice, in two fresh processes)", r.lastRun, b.StallAfter)}
+	}
 	if r.timedOut {
 		return &Outcome{Class: "child-timeout", Key: "child-timeout", Detail: fmt.Sprintf("child process exceeded its wall-clock limit during run %d", r.lastRun)}
 	}
@@ -223,7 +273,7 @@ func (ck *Check) runTapeIsolated(b *Batch, seed uint64, tier string, idx int, ta
 		return r.outs[0].Outcome, r.outs[0].Tape, true
 	}
 	if r.end == nil {
-		if r.timedOut && !b.TimeoutIsViolation {
+		if r.timedOut && !b.TimeoutIsViolation && !r.stalled {
 			return nil, tape, false
 		}
 		return abortOutcome(b, r), tape, true
@@ -279,6 +329,21 @@ func (ck *Check) runIsolated(b *Batch, seed uint64, tier string, n int, known ma
 							r = r2
 						}
 					}
+					if r.stalled && r.lastRun >= 0 {
+						// confirm in a second fresh process, replaying the child's runs
+						// up to the stuck one with twice the patience
+						bb := *b
+						bb.StallAfter = 2 * b.StallAfter
+						r2 := ck.spawn(&bb, seed, []string{"child", b.Name, tier, strconv.Itoa(from), strconv.Itoa(r.lastRun + 1)}, nil, false)
+						if !(r2.stalled && r2.lastRun == r.lastRun) {
+							fmt.Fprintf(os.Stderr, "run %d of batch %s stalled once but not on retry: slow machine, not a hang\n", r.lastRun, b.Name)
+							r = r2
+							to = min(to, r.lastRun+1)
+							if r2.lastRun < 0 {
+								to = from
+							}
+						}
+					}
 					var out *Outcome
 					var tape []uint32
 					idx := -1
@@ -288,7 +353,7 @@ func (ck *Check) runIsolated(b *Batch, seed uint64, tier string, n int, known ma
 						out, tape, idx = o.Outcome, o.Tape, o.Index
 						resume = idx + 1
 					} else if r.end == nil {
-						if r.lastRun < 0 || (r.timedOut && !b.TimeoutIsViolation) {
+						if r.lastRun < 0 || (r.timedOut && !b.TimeoutIsViolation && !r.stalled) {
 							mu.Lock()
 							infra++
 							fmt.Fprintf(os.Stderr, "child for runs %d..%d failed before/without a verdict (exit %d, timeout=%v): %s\n", from, to, r.exitCode, r.timedOut, tailText(r.stderr, 2000))
